@@ -116,7 +116,7 @@ impl Scenario for CryptSc {
                 }
             }
             "sc-tamper" => {
-                p.faults.push(Step::new("perturb", &[x.below(24) as i64, x.below(1 << 24) as i64]));
+                p.faults.push(Step::new("perturb", &[x.below(27) as i64, x.below(1 << 24) as i64]));
             }
             "tl-tamper" => {
                 p.faults.push(Step::new("perturb", &[x.below(20) as i64, x.below(1 << 24) as i64]));
@@ -395,6 +395,22 @@ fn sc_tamper(plan: &Plan, lib: &dyn Lib, rec: &mut Rec, all_bits: bool) {
         19 => { f.u = up.mul(&k).to_bytes(); f.w = wp.mul(&k).to_bytes(); "u-and-w-scaled" }
         20 => { transport = Some(NetAction::Truncate { part: 0, len: salt as usize }); "in-flight-truncation" }
         21 => { transport = Some(NetAction::Extend { part: 0, extra: x.bytes(1 + (salt % 9) as usize) }); "in-flight-extension" }
+        23 => { f.u = up.neg().to_bytes(); f.w = wp.neg().to_bytes(); "u-and-w-negated" }
+        24 | 25 => {
+            // both points the identity: the pairing relation holds trivially and the key stream of the identity point is
+            // public; with v = frame(msg) xor that stream (24) every secret key would "decrypt" it
+            f.u = up.sub(&up).to_bytes();
+            f.w = wp.sub(&wp).to_bytes();
+            if mode == 24 {
+                let mut frame = refimpl::leb128(msg.len() as u128);
+                frame.extend_from_slice(&msg);
+                frame.resize(f.v.len().max(frame.len()), 0);
+                f.v = refimpl::xor(&frame, &refimpl::shake128(&f.u, frame.len()));
+                "u-and-w-identity-with-v-keyed-to-the-identity"
+            } else {
+                "u-and-w-identity"
+            }
+        }
         _ => { transport = Some(NetAction::BitFlip { part: 0, bit: salt as usize }); "in-flight-bitflip" }
     };
     if let Some(t) = transport {
@@ -713,6 +729,22 @@ fn tl_tamper(plan: &Plan, lib: &dyn Lib, rec: &mut Rec, all_bits: bool) {
         // reported by the beacon class; tampering an unopenable ciphertext proves nothing
         rec.expect("C13", "correct-signature-opens-exactly", false, || format!("open scheme={} g={} shares=false | len={} id_len={}: the signature over the identifier did not recover the message: {}", sch, g.name(), msg.len(), id.len(), describe(&base)));
         return;
+    }
+    // in every run: the identity "signature" opens nothing — neither the honest ciphertext nor one ASSEMBLED for it
+    // (header re-keyed for the pairing value 1, which e(O, u) is for every u)
+    {
+        let sl = g.sig_len();
+        let osig = refimpl::layout::tagged(scheme, &if sl == 48 { Pt::id1() } else { Pt::id2() }.to_bytes());
+        let o = rec.call(lib, g, Op::TlDecrypt, &[&ct, &osig]);
+        rec.expect("C13", "other-signature-opens-nothing", !matches!(o.opt_value(), Some(Some(_))), || format!("identity-signature scheme={} g={} | the honest ciphertext opened with the identity signature: {}", sch, g.name(), describe(&o)));
+        if let (Some((tags, _)), Some(pkp)) = (own_tags(rec, lib, g), Pt::from_bytes(&a.pk)) {
+            let b = Bls::with_tags(sig_grp(g), tags);
+            let idp = if sl == 48 { Pt::id1() } else { Pt::id2() };
+            let t = refimpl::timelock_seal(&b, &pkp, &msg, &idp, &refimpl::keygen(&x.bytes(10)));
+            let forged = TimeLockFields { u: t.u.to_bytes(), v: t.v.to_vec(), w: t.w.clone(), scheme }.build();
+            let o = rec.call(lib, g, Op::TlDecrypt, &[&forged, &osig]);
+            rec.expect("C13", "other-signature-opens-nothing", !matches!(o.opt_value(), Some(Some(_))), || format!("identity-signature-with-assembled-ciphertext scheme={} g={} | a ciphertext keyed to the pairing value 1 opened with the identity signature: {}", sch, g.name(), describe(&o)));
+        }
     }
     // authenticated prefix of w: the length prefix and the message bytes; the rest is zero padding
     let auth = refimpl::leb128(msg.len() as u128).len() + msg.len();
